@@ -1,8 +1,17 @@
 #!/usr/bin/env python3
 """Regenerates the two tables of DESIGN.md section 9 from what the machinery itself wrote:
    9.5 from evidence/<id>.json (the last run of every check), 9.6 from seeded/MATRIX.tsv + seeded/<id>/notes.md."""
-import json, os, re, sys
+import io, json, os, re, sys
 V = os.path.dirname(os.path.dirname(os.path.abspath(__file__)))
+SPLICE = "--splice" in sys.argv
+_real_print = print
+_buf = {"checks": io.StringIO(), "seeds": io.StringIO()}
+_cur = ["checks"]
+def print(*a, **k):
+    if SPLICE:
+        _real_print(*a, **k, file=_buf[_cur[0]])
+    else:
+        _real_print(*a, **k)
 man = json.load(open(os.path.join(V, "MANIFEST.json")))
 print("| id | tier | jobs | feasible paths | SMT queries (unsat/sat/unknown) | solver s | wall s | functions of /repo executed |")
 print("|---|---|---|---|---|---|---|---|")
@@ -17,6 +26,7 @@ for c in man["checks"]:
     fns = d.get("functions_encoded") or {}
     names = sorted({k.split(".")[-1] if not k.startswith("nanoemoji") else ".".join(k.split(".")[1:]) for k in fns if "nanoemoji" in k})
     print(f"| {pid} | {e.get('tier','?')} | {len(d.get('jobs', []))} | {d.get('states','?')} | {q.get('total','?')} ({q.get('unsat','?')}/{q.get('sat','?')}/{q.get('unknown','?')}) | {d.get('solver_s', d.get('solver_time_s','?'))} | {e.get('wall_s','?')} | {', '.join(names)[:400]} |")
+_cur[0] = "seeds"
 print()
 print("| seed | what it changes (first line of the author's note) | `./check` exit | violation keys reported |")
 print("|---|---|---|---|")
@@ -31,3 +41,21 @@ for line in open(os.path.join(V, "seeded", "MATRIX.tsv")).read().splitlines()[1:
                 note = l[:130].replace("|", "/")
                 break
     print(f"| {sid} | {note} | {rc} | {keys.strip()} |")
+
+if SPLICE:
+    p = os.path.join(V, "DESIGN.md")
+    s = open(p).read()
+    for name, buf in _buf.items():
+        a, b = f"<!-- TABLE:{name} -->", f"<!-- /TABLE:{name} -->"
+        if a in s and b in s:
+            s = s[: s.index(a) + len(a)] + "\n" + buf.getvalue().strip() + "\n" + s[s.index(b):]
+    lg = "/tmp/run_all_thorough.log"
+    a, b = "<!-- TABLE:thorough -->", "<!-- /TABLE:thorough -->"
+    if os.path.exists(lg) and a in s:
+        rows = ["| check | exit | wall | summary |", "|---|---|---|---|"]
+        for l in open(lg):
+            m = re.match(r"(C\d+) thorough rc=(\d+) wall=(\d+)s \d+ violations; (.*)", l.strip())
+            if m:
+                rows.append(f"| {m.group(1)} | {m.group(2)} | {m.group(3)} s | {m.group(4)[:170]} |")
+        s = s[: s.index(a) + len(a)] + "\n" + "\n".join(rows) + "\n" + s[s.index(b):]
+    open(p, "w").write(s)
